@@ -153,7 +153,8 @@ func (self *VM) spawnCore() *Core {
 	self.Cores.Lock.Lock()
 	defer self.Cores.Lock.Unlock()
 
-	ch := make(chan *value.VmInterrupt)
+	// Buffered: a core signals exactly once and must not block if `Wait` no longer polls it.
+	ch := make(chan *value.VmInterrupt, 1)
 	core := NewCore(
 		&self.Program.Functions,
 		hostcall,
